@@ -37,6 +37,7 @@ import re
 from dataclasses import dataclass, field, replace
 from typing import Any, Callable, Iterable
 
+from core.cfg import exit_kinds as _exit_kinds
 from core.guards import FALSE, TRUE, Formula, atom, atoms_of, evaluate, f_not
 from core.loader import AnalysisError, ClassInfo, FuncInfo, Repo, norm, own_nodes
 
@@ -743,12 +744,16 @@ class Interp:
         finally:
             self.frames.pop()
         env2 = fr.env
-        if ft1 == FALSE and ft2 == FALSE:
+        # a branch that ends in continue / break still hands its bindings on (to the next iteration / to the code after the
+        # loop): only return / raise make them irrelevant
+        gone1 = ft1 == FALSE and not (_exit_kinds(s.body) & {"continue", "break"})
+        gone2 = ft2 == FALSE and not (_exit_kinds(s.orelse) & {"continue", "break"})
+        if gone1 and gone2:
             fr.env = env0
             return FALSE
-        if ft1 == FALSE:
+        if gone1:
             fr.env = env2
-        elif ft2 == FALSE:
+        elif gone2:
             fr.env = env1
         else:
             merged = {}
@@ -910,6 +915,7 @@ class Interp:
             else:
                 marker = Loop(f"u{len(self.loops)}", Coll(), s, fr.fi)
                 self.loops = [*self.loops, marker]
+            flags = self._flags_before(fr, s.body) if ckey is not None else {}
             try:
                 value = self.loop_value(fr, value, lp, s)
                 self.assign(fr, s.target, value, s)
@@ -919,6 +925,8 @@ class Interp:
                 cur.active = False
                 self.loops = saved
                 self.frames.pop()
+            if flags:
+                self._flags_after(fr, flags, ckey, g)
             if cur.broken and lp is not None:
                 self._mark_partial(lp)
             run_exits = []
@@ -944,6 +952,45 @@ class Interp:
             finally:
                 self.frames.pop()
         return cont
+
+    def _flags_before(self, fr: Frame, body: list) -> dict:
+        """Boolean variables assigned in the body are replaced by placeholders while the body runs for the generic element, so that
+        the effect of one iteration on them can be read off afterwards (`found = False; for x in xs: if p(x): found = True`)."""
+        flags = {}
+        assigned = {n.id for st in body for n in ast.walk(st) if isinstance(n, ast.Name) and isinstance(n.ctx, ast.Store)}
+        for name, v in list(fr.env.items()):
+            if name not in assigned:
+                continue
+            if isinstance(v, BoolV) or (isinstance(v, Const) and isinstance(v.value, bool)):
+                ph = f"§{name}§{len(self.loops)}"
+                flags[name] = (v, ph)
+                fr.env[name] = BoolV(atom(ph))
+        return flags
+
+    def _flags_after(self, fr: Frame, flags: dict, var: str, run_guard: Formula) -> None:
+        for name, (old, ph) in flags.items():
+            cur = fr.env.get(name)
+            b0 = self.truth(old)
+            if isinstance(cur, BoolV) and cur.f == atom(ph):
+                fr.env[name] = old
+                continue
+            if cur is None or not (isinstance(cur, BoolV) or (isinstance(cur, Const) and isinstance(cur.value, bool))):
+                continue  # re-bound to something else: keep
+            t = self.truth(cur)
+            t1, t0 = subst_atom(t, ph, TRUE), subst_atom(t, ph, FALSE)
+            b = atom(ph)
+            if valid(t, disj([b, t0])) and valid(disj([b, t0]), t):
+                # the body can only switch the flag on: on after the loop iff it was on or some element switches it on
+                fr.env[name] = BoolV(disj([b0, self.exists(conj([run_guard, t0]), var)]))
+            elif valid(t, conj([b, t1])) and valid(conj([b, t1]), t):
+                # the body can only switch it off
+                fr.env[name] = BoolV(conj([b0, f_not(self.exists(conj([run_guard, f_not(t1)]), var))]))
+            else:
+                self.note(f"{fr.fi.qualname}: `{name}` is re-assigned in a loop in a way that is not a flag; its value after the loop is unknown")
+                taint: frozenset = frozenset()
+                for a in atoms_of(t):
+                    taint |= self.taint_of_atom(a)
+                fr.env[name] = Unknown(f"{name}@loop", taint)
 
     def loop_value(self, fr: Frame, value, lp: "Loop | None", node: ast.AST) -> V:
         """The value bound to the loop variable of one run of `iteration_plan`."""
@@ -1386,6 +1433,8 @@ class Interp:
                 b = self.ev(fr, e.orelse)
             finally:
                 self.frames.pop()
+            if isinstance(a, Coll) and isinstance(b, Coll) and a is not b:
+                return AltV([(c, a), (f_not(c), b)])  # `(xs if c else ys).append(v)` must reach the originals
             return self.join_ite(c, a, b)
         if isinstance(e, (ast.List, ast.Set)):
             c = Coll()
@@ -1768,7 +1817,7 @@ class Interp:
     def _freeze(self, v: V) -> V:
         if isinstance(v, Coll):
             return v.snapshot()
-        if isinstance(v, Unknown):
+        if isinstance(v, (Unknown, AltV, TupleV, MapV, DictV, EnumV)):
             return self.as_coll(v).snapshot()
         return v
 
